@@ -74,6 +74,10 @@ func ruleC12(r *Report) {
 	safely(r, func() { checkEndpointGetters(r, p, "C12.endpoint") })
 	r.Rule("C12.idp-decode", "the IdP's request decoder refuses a request only for its HTTP method or a failing decoding step (base64, inflate, form parsing) — not for the relay state, a length or a header", 1)
 	safely(r, func() { checkRequestDecoder(r, p, "C12.idp-decode") })
+	// ... and the inflating step of the redirect binding refuses a stream only beyond the fixed size limit (the bounded
+	// reader's rules, run on behalf of this property): a cap relative to the compressed size turns away the SP's own
+	// request when its configuration makes it compress well
+	safely(r, func() { checkInflate(r, NewAnalysis(p), NewScope(p, r.Tier), "C12.idp-decode") })
 	// "this library's IdP parses and validates every such request": the accept scenarios of the IdP's validator
 	// (C05.accept), run here on behalf of this property
 	r.Rule("C12.idp-accepts", "a fresh 2.0 request from a registered SP naming the SSO URL (or no Destination) whose ACS is found is not rejected by IdpAuthnRequest.Validate, signed or not (the accept scenarios of C05, borrowed)", 1)
